@@ -99,8 +99,12 @@ class Prop:
                   "reachable state where no thread can step each unfinished thread is parked in take() on an empty queue / in "
                   "put() on a full one / in wait() with a positive count, and count <= 0 implies no unsignalled waiter.  while/if, "
                   "the condition waited on, notify vs notifyAll, their order and the loop guards are re-extracted from /repo on "
-                  "every run and tied by decide-lemmas; the models are tied to the real classes by identical-schedule runs")
-    level_note = ("Trusted: Lean kernel (axioms propext, Classical.choice, Quot.sound only), vlib/extract.py + vlib/gen/monitor.py, "
+                  "every run and tied by decide-lemmas; the primitives underneath (MutexLock/MutexLockGuard, Condition::wait/notify/"
+                  "notifyAll/waitForSeconds, CountDownLatch) are tied statement by statement to the pthread calls the model's atomic "
+                  "steps stand for, and the deadline arithmetic of waitForSeconds is translated and proved to give a valid timespec; "
+                  "the models are tied to the real classes by identical-schedule runs")
+    level_note = ("Trusted: Lean kernel (axioms propext, Classical.choice, Quot.sound only), vlib/extract.py + vlib/gen/monitor.py + "
+                  "vlib/gen/threadskel.py, "
                   "the hand-written parts of Model/Monitor.lean as far as the differential runs exercise them, pthread "
                   "mutex/condition semantics as modelled (Mesa monitors, spurious wake-ups), std::deque/boost::circular_buffer, "
                   "harness/sched/detsched.h.")
